@@ -120,6 +120,10 @@ WIRE = [
      b"Content-Length: 148\r\nConnection: Keep-Alive\r\nCache-Control: no-cache\r\n\r\n"
      b"\x00\x00\x00\x90U@D\x97\x8d\xf1L\xda\xd3\r\x98\xed\x10\xe0\xff#\x97W\xde\x17\xa1:x\xeb\xa3\xe4\x89 \xaeq\xde\xae\xfc\xd87\x1d\x9f\xed\x95K\x19\x94n\xf2\xeb\x1eO\x9e\xad\xd4`-\x7f\x82m\\\xe2\x06<\xda\xefjx@\x04;\xac\xdd\x13P\x9d\xaf\x86\xc6\xd4*,9\xe7\xe2\xfa\xe2\xc3\xdc}92\x94A\x90\xbb\x01\xa3' \\PB\x86q\xf6y\xda:\xf7\xbe'\xba\xaa\xbe_\xd8\"\x96h\x11\xe4)!\x9d\x8d\xfe\xc2\x83\xbe\xee!\xa0:5\xa6\x00>[\x05\xdf\x12F\xaaN\xcc\xf1\x10\x97"),  # noqa: E501
 ]
+# requests the routing must refuse whatever the decoder has seen before: the check-in under the submit verb, the callback
+# under the get verb (paths and verbs of the c2test configuration: GET /ptj, POST /submit.php)
+WIRE.append(WIRE[0].replace(b"GET /ptj", b"POST /ptj", 1))
+WIRE.append(WIRE[2].replace(b"POST /submit.php", b"GET /submit.php", 1))
 PACKET_KIND = {"BeaconMetadata": 1, "TaskPacket": 2, "CallbackPacket": 3}
 _C2TEST_PRIV = None
 
@@ -345,6 +349,8 @@ def gen_synth(rng, degenerate=False, own_key=True):
         secs = b"".join(struct.pack("<II", x, x + 0x1000) for x in rng.sample(range(0x1000, 0x90000, 0x1000), rng.randrange(0, 4)))
         items.append((42, t_ptr(42, secs + bytes(8))))
     if rng.random() < 0.3:
+        items.append((36, t_short(36, rng.randrange(0, 4))))      # deprecated SETTING_INJECT_OPTIONS (index 36 as TYPE_SHORT)
+    if rng.random() < 0.3:
         items.append((29, t_ptr(29, b"%windir%\\syswow64\\rundll32.exe", 64)))
         items.append((30, t_ptr(30, b"%windir%\\sysnative\\rundll32.exe", 64)))
     items = [it for it in items if it[0] not in drop]
@@ -494,7 +500,7 @@ def gen_wire_ops(rng, n, snap_every):
             ndec += 1
         elif r < 0.88:
             d = rng.randrange(0, ndec) if rng.random() < 0.95 else ndec + 2
-            op = f"wr:{d}:{rng.choice([0, 0, 1, 1, 2])}"
+            op = f"wr:{d}:{rng.choice([0, 0, 1, 1, 2, 2, 3, 4])}"
         elif r < 0.92:
             op = f"{rng.choice(['tr', 'rc'])}:{rng.randrange(0, ndec)}:{rng.randrange(3)}"
         elif r < 0.96:
@@ -519,6 +525,9 @@ WIRE_DIRECTED = [
     ["c2:2", "c2:2", "wr:1:0", "wr:0:1", "wr:0:0", "wr:0:1", "wr:1:1", "sn"],
     ["cl:T", "wr:0:0", "wr:0:1", "c2:2", "wr:1:0", "wr:1:2", "sn"],
     ["sn", "c2:2", "sn", "wr:0:0", "sn", "c2:2", "sn", "wr:1:0", "sn", "wr:1:1", "sn"],
+    # routing is a function of the request, not of what the decoder routed before (same path, other verb)
+    ["c2:2", "wr:0:3", "wr:0:0", "wr:0:3", "wr:0:2", "wr:0:4", "wr:0:1", "sn"],
+    ["c2:1", "wr:0:2", "wr:0:4", "wr:0:0", "wr:0:3", "sn"],
 ]
 
 
@@ -688,9 +697,13 @@ def canon_attr(v, views, depth=0):
 def deep_snapshot(cfg):
     """independent deep observation of the configuration: the four views (accessed), the dumps of the settings tuple,
     the block, and EVERY attribute hanging off the object (names and deep contents)"""
+    # the Setting objects first, as they stand BEFORE this observation touches any view (index member incl. its name, type, length,
+    # value), and the enum-keyed mapping: a view access must not rewrite them
+    pre = tuple((repr(s.index), repr(s.type), int(s.length), bytes(s.value)) for s in cfg.settings_tuple)
+    pre_enum = [repr(k) for k in cfg.settings_map(index_type="enum", pretty=False, parse=False)]
     views = [[(repr(k), copy.deepcopy(v)) for k, v in getattr(cfg, name).items()] for name in VIEWS]
     attrs = [(k, canon_attr(v, views)) for k, v in sorted(vars(cfg).items())]
-    return views, tuple(s.dumps() for s in cfg.settings_tuple), bytes(cfg.config_block), attrs
+    return views, tuple(s.dumps() for s in cfg.settings_tuple), bytes(cfg.config_block), attrs, pre, pre_enum
 
 
 def config_list_ids(cfg):
